@@ -47,6 +47,10 @@ def decide(pid, names, tier, pool=6):
     def one(name):
         key = 'L|%s|%s|%s|%s' % (th, lh, name, budgets)
         c = cache_get(key)
+        if not c and tier != 'quick':
+            # a goal proved with the short solver budgets stays proved: the thorough tier only extends budgets for
+            # goals that are still open
+            c = cache_get('L|%s|%s|%s|%s' % (th, lh, name, '10000,120000'))
         if c:
             for d in c:
                 d['cached'] = True
